@@ -9,7 +9,10 @@ def obligations(tier):
             obs.append(dict(name="network-%s-%s" % (nm, en), harness="rw.c", entry=ent, defs=["MAXB=%d" % mb] + (["WRITE"] if w else []), unwind=mb + 3, replace=rep,
                             backends=["cadical"], timeout=1800 if T else 280, claim=what, bounds="buflen <= %d, every (buflen, min, done) combination, every kernel return value and errno" % mb,
                             stubs=["recv/send -> kernel model over a ghost byte stream", "events_network_register/cancel -> one-slot registry", "request cookie pool -> tracked"]))
+    obs.append(dict(name="network-accept", harness="acc.c", entry="h_accept", unwind=8, backends=["cadical"], timeout=1800 if T else 280,
+                    claim="network_accept: submission registers once; cancel leaves nothing and never calls back; the readiness callback makes one accept(2): EAGAIN/EWOULDBLOCK/ECONNABORTED/EINTR => re-register, otherwise exactly one callback with the accepted socket or -1",
+                    bounds="every accept(2) return value and errno", stubs=["accept -> scripted", "events_network_register/cancel -> one-slot registry"]))
     return obs
 TRUSTED = ["CBMC 6.11 C semantics", "cadical"]
-ASSUMPTIONS = ["network_connect (address-list walk, timeouts) and network_accept have no obligations: that part of C06 is NOT decided here", "send(2) never returns 0 for a non-empty buffer (the code asserts it)"]
+ASSUMPTIONS = ["network_connect (address-list walk, timeouts) has no obligation: that part of C06 is NOT decided here; in network_accept a refused RE-registration after a transient error returns -1 to the event loop without a user callback (observed, not asserted either way)", "send(2) never returns 0 for a non-empty buffer (the code asserts it)"]
 EXPLANATION = ""
